@@ -44,7 +44,7 @@ type w13Known struct {
 	keys map[string]bool
 	// root causes, see /verif/harness/notes/C13.md
 	shortFrame, args2flag, setexArity, appendNil, callDbid, incrNoValue, lockData, scanArity, valueOffset,
-	lessVersion, elemBounds, propWalk, errMsg12, willRecursion, ackUnheld, recoverNil, execAlloc bool
+	lessVersion, elemBounds, propWalk, errMsg12, willRecursion, ackUnheld, recoverNil, execAlloc, unlockAckPending bool
 }
 
 var (
@@ -73,6 +73,10 @@ func w13KnownKeys() *w13Known {
 		k.ackUnheld = k.fn("server.(*ReplicationAckDB).ProcessLeaderPushLock")
 		k.recoverNil = k.fn("server.(*LockManager).ProcessRecoverLockData")
 		k.execAlloc = k.fn("protocol.(*LockCommandData).DecodeLockCommand")
+		// "unlock first lock" (UNLOCK flag 0x01, text DEL) releases a lock whose ack is still pending: its
+		// command is freed while the Lock stays in the time-out wheel; the sweep later uses and frees the
+		// stale command / Lock (another connection's request is corrupted, or the sweep goroutine dies)
+		k.unlockAckPending = k.fn("server.(*LockDB).UnLock")
 		w13KnownVal = k
 	})
 	return w13KnownVal
@@ -107,6 +111,23 @@ func (k *w13Known) w13RawKnown(b []byte) string {
 	if k.willRecursion && bytes.Contains(b, []byte{0x56, 0x01, 0x00}) &&
 		(bytes.Contains(b, []byte{0x56, 0x01, 0x08}) || bytes.Contains(b, []byte{0x56, 0x01, 0x09})) {
 		return "INIT and WILL_LOCK/WILL_UNLOCK on one binary connection (known finding: result recursion on close kills the process)"
+	}
+	if k.unlockAckPending {
+		ack, first := false, false
+		for i := 0; i+64 <= len(b); i++ {
+			if b[i] != 0x56 || b[i+1] != 0x01 {
+				continue
+			}
+			if (b[i+2] == 1 || b[i+2] == 8) && b[i+56]&0x10 != 0 {
+				ack = true
+			}
+			if (b[i+2] == 2 || b[i+2] == 9) && b[i+19]&0x01 != 0 {
+				first = true
+			}
+		}
+		if ack && first {
+			return "ack-required LOCK and unlock-first UNLOCK on one connection (known finding: unlock of an ack-pending lock leaves its command / Lock in the time-out wheel)"
+		}
 	}
 	// frames: top level, WILL_LOCK (executed as LOCK on close) or embedded in an EXECUTE value frame
 	for i := 0; (k.ackUnheld || k.recoverNil || k.execAlloc) && i+64 <= len(b); i++ {
@@ -620,6 +641,10 @@ func (g *w13Gen) genLockFrame(depth int, embedded bool, db byte) ([]byte, string
 			timeout, tflag = uint16(g.n("lfTimerTimeoutS", 0, 1)), tflag&^0x8440
 		}
 	}
+	if tflag&0x1000 != 0 && g.known.unlockAckPending {
+		g.exclude("ack-required time-out flag 0x1000 (known finding: unlock-first of an ack-pending lock)")
+		tflag &^= 0x1000
+	}
 	if withData && tflag&0x1000 != 0 && g.known.recoverNil {
 		g.exclude("LOCK frame with a value frame and the ack-required flag (known finding)")
 		tflag &^= 0x1000
@@ -838,8 +863,8 @@ func (g *w13Gen) safeLockTimeout(label string) string {
 		g.exclude("time-out flag 0x4000 (known finding: less-lock-version without a holder)")
 		flags &^= 0x4000
 	}
-	if flags&0x1000 != 0 && (g.known.errMsg12 || g.known.ackUnheld || g.known.recoverNil) {
-		g.exclude("text lock with the ack-required flag (known findings: result code 12 has no text; ack of a lock that is not held)")
+	if flags&0x1000 != 0 && (g.known.errMsg12 || g.known.ackUnheld || g.known.recoverNil || g.known.unlockAckPending) {
+		g.exclude("text lock with the ack-required flag (known findings around ack-pending locks)")
 		flags &^= 0x1000
 	}
 	switch g.n(label+"Kind", 0, 3) {
@@ -945,7 +970,11 @@ func (g *w13Gen) kvOptions() []string {
 		case 5:
 			a = append(a, "XX")
 		case 6:
-			a = append(a, "ACK")
+			if g.known.unlockAckPending {
+				g.exclude("ACK option of a key/value command (known finding: unlock-first of an ack-pending lock)")
+			} else {
+				a = append(a, "ACK")
+			}
 		case 7:
 			a = append(a, "NAOF")
 		case 8:
@@ -1094,6 +1123,14 @@ func (g *w13Gen) knownTextFilter(a []string) []string {
 		if l := strings.ToUpper(a[len(a)-1]); l == "MATCH" || l == "COUNT" {
 			g.exclude("SCAN with a trailing MATCH/COUNT without value (known finding)")
 			a = append(a, "1")
+		}
+	}
+	if g.known.unlockAckPending {
+		for i := 1; i < len(a); i++ {
+			if strings.ToUpper(a[i]) == "ACK" {
+				g.exclude("ACK option of a key/value command (known finding: unlock-first of an ack-pending lock)")
+				a[i] = "NAOF"
+			}
 		}
 	}
 	if g.known.lockData && (up == "LOCK" || up == "UNLOCK" || up == "PUSH") {
@@ -2007,15 +2044,24 @@ func w13ReportWorkerCrashes(faildir string) {
 			_ = json.Unmarshal(ib, &recent)
 		}
 		var culprit *w13Case
-		note := "none of the last inputs of the worker reproduces it in isolation"
-		for i := len(recent) - 1; i >= 0; i-- {
-			if rep, rkey, _ := w13ReplayIsolated(recent[i]); rep {
-				culprit, note = recent[i], fmt.Sprintf("input %d before the end of the worker reproduces it in isolation (as %s)", len(recent)-1-i, rkey)
-				break
+		note := ""
+		for try := 1; try <= 3 && culprit == nil && !w13GlobalSwapArtefact(head, stack); try++ {
+			for i := len(recent) - 1; i >= 0; i-- {
+				if rep, rkey, _ := w13ReplayIsolatedLinger(recent[i], 3500); rep {
+					culprit, note = recent[i], fmt.Sprintf("input %d before the end of the worker reproduces it in isolation (as %s)", len(recent)-1-i, rkey)
+					break
+				}
 			}
 		}
-		if culprit == nil && len(recent) > 0 {
-			culprit = recent[len(recent)-1]
+		if culprit == nil {
+			// unreproduced anomaly, see w13Supervise (the fuzzing engine itself has already failed the run)
+			rep := map[string]interface{}{"test": "FuzzC13_Wire", "key": key, "message": head + "\n" + w13Head(stack, 60), "recent": recent}
+			if rb, merr := json.MarshalIndent(rep, "", " "); merr == nil {
+				_ = os.WriteFile(filepath.Join(faildir, fmt.Sprintf("C13.anomaly-fuzz-%s.json", strings.TrimSuffix(filepath.Base(cf), ".crash"))), rb, 0644)
+			}
+			fmt.Printf("VERIF-ANOMALY C13 unreproduced death of a fuzz worker (%s): %s; none of its last %d inputs reproduces it in isolation (3 tries each)\n%s\n", key, head, len(recent), w13Head(stack, 30))
+			vstat("FuzzC13_Wire").Class("unreproduced anomaly: death of a server goroutine that no recent case reproduces (not judged)", 1)
+			continue
 		}
 		msg := fmt.Sprintf("a fuzz worker died: %s; %s\n%s", head, note, w13Head(stack, 30))
 		vRecordFailure("FuzzC13_Wire", key, msg, culprit)
@@ -2057,7 +2103,17 @@ func TestC13_Replay(t *testing.T) {
 		if err != nil {
 			t.Fatalf("cannot load replay %s: %v", f, err)
 		}
-		reproduced, got, msg := w13ReplayIsolated(&c)
+		tries := c.Tries
+		if tries < 1 {
+			tries = 1
+		}
+		reproduced, got, msg := false, "", ""
+		for n := 1; n <= tries && !reproduced; n++ {
+			reproduced, got, msg = w13ReplayIsolated(&c)
+			if reproduced && tries > 1 {
+				msg = fmt.Sprintf("(try %d of %d) %s", n, tries, msg)
+			}
+		}
 		if reproduced && got != key {
 			msg = fmt.Sprintf("(observed key %s) %s", got, msg)
 		}
